@@ -22,11 +22,16 @@ def _cvc5(smt2: str, timeout_s: float):
     exe = "/usr/bin/cvc5"
     if not os.path.exists(exe):
         return "unknown"
+    import re as _re
+    # pure integer arithmetic (constants of sort Int / Bool only, no arrays, reals, quantifiers or uninterpreted functions) is handed
+    # over as QF_NIA: cvc5's strategy for the generic logic ALL does not terminate on nonlinear div/mod lemmas that QF_NIA decides at once
+    decls = _re.findall(r"\(declare-fun\s+\S+\s+\(([^)]*)\)\s+(\S+)\)", smt2)
+    pure_int = bool(decls) and all(a.strip() == "" and srt in ("Int", "Bool") for a, srt in decls) and not _re.search(r"Array|Real|forall|exists|to_real|lambda", smt2)
     with tempfile.NamedTemporaryFile("w", suffix=".smt2", delete=False) as f:
-        f.write("(set-logic ALL)\n" + smt2 + "\n")
+        f.write(("(set-logic QF_NIA)\n" if pure_int else "(set-logic ALL)\n") + smt2 + "\n")
         path = f.name
     try:
-        p = subprocess.run([exe, "--tlimit=%d" % int(timeout_s * 1000), "--arrays-exp", path],
+        p = subprocess.run([exe, "--tlimit=%d" % int(timeout_s * 1000)] + ([] if pure_int else ["--arrays-exp"]) + [path],
                            capture_output=True, text=True, timeout=timeout_s + 5)
         out = p.stdout.strip().splitlines()
         return out[0] if out and out[0] in ("sat", "unsat") else "unknown"
